@@ -113,7 +113,9 @@ def build(n, path, targets, tbts):
     if a == "Decorator":
         return real.TestResultDecorator(build(n["child"], path + ["Decorator"], targets, tbts))
     if a == "Tagger":
-        return real.Tagger(build(n["child"], path + [("Tagger", tuple(n["new"]), tuple(n["gone"]))], targets, tbts), n["new"], n["gone"])
+        # the tag arguments are any iterables: hand over one-shot iterators
+        return real.Tagger(build(n["child"], path + [("Tagger", tuple(n["new"]), tuple(n["gone"]))], targets, tbts),
+                           iter(list(n["new"])), iter(list(n["gone"])))
     raise AssertionError(a)
 
 
@@ -324,6 +326,11 @@ def run_case(spec):
                 vs.append(V("test-by-test", "stop-time", "stop_time %r, time() at stopTest was %r" % (c["stop_time"], e["stop"])))
             if c["start_time"] is None or c["stop_time"] is None:
                 vs.append(V("test-by-test", "time-none", "start/stop time missing"))
+            else:
+                # without an explicit time() in force the clock is the wall clock, not some earlier run's value
+                for which, supplied, got in (("start", e["start"], c["start_time"]), ("stop", e["stop"], c["stop_time"])):
+                    if supplied is None and not under_tsfr and got.year < 2020:
+                        vs.append(V("test-by-test", "stale-%s-time" % which, "%s_time is %r although no time() value was in force (a new run started since the last one)" % (which, got)))
             # tags: the reporter's tags at stopTest after the per-test changes of the Taggers on the path
             idx = [x[0] for x in tbts].index(r_)
             want_tags = set(e["tbt_out"][idx] if under_tsfr else e["tbt_stop"][idx])
